@@ -351,6 +351,9 @@ fn run_property(o: &Opts, out: &mut dyn Write) -> i32 {
         }
         cases.extend(sw);
     }
+    if std::env::var("VERIF_NO_HIST").is_err() {
+        cases.extend(props::hist_for(prop, &mut rng, &o.tier));
+    }
     if matches!(prop, "C09") && o.tier == "thorough" {
         exhaustive = true;
     }
@@ -593,6 +596,45 @@ fn run_property(o: &Opts, out: &mut dyn Write) -> i32 {
                     total.oracle_count += st.oracle_count;
                     total.cases += st.cases;
                     total.lines += st.lines;
+                }
+            }
+        }
+    }
+
+    // failing API histories: drop every operation that is not needed for the disagreement
+    {
+        let hs: Vec<usize> = total.mismatches.iter().enumerate().filter(|(_, m)| m.tag.starts_with("api-history")).map(|(i, _)| i).take(2).collect();
+        for ix in hs {
+            let script = total.mismatches[ix].script.clone();
+            let mut cmds: Vec<Cmd> = script.lines().filter_map(parse_cmd).collect();
+            let fails = |cmds: &Vec<Cmd>| -> Option<Stats> {
+                let mut c = Case::new(total.mismatches[ix].tag.clone());
+                c.key = total.mismatches[ix].key.clone();
+                for m in cmds {
+                    c.push(m.clone(), props::hist_line_proj(prop, m));
+                }
+                let st = run_cases(&o.drv, &o.tmp, vec![c], 1);
+                if st.mismatch_count > 0 { Some(st) } else { None }
+            };
+            if cmds.len() < 2 || fails(&cmds).is_none() {
+                continue;
+            }
+            let mut best = None;
+            let mut i = cmds.len() - 1;
+            let mut budget = 400;
+            while i >= 1 && budget > 0 {
+                let mut trial = cmds.clone();
+                trial.remove(i);
+                budget -= 1;
+                if let Some(st) = fails(&trial) {
+                    cmds = trial;
+                    best = Some(st);
+                }
+                i -= 1;
+            }
+            if let Some(mut st) = best {
+                if let Some(m) = st.mismatches.pop() {
+                    total.mismatches[ix] = Mismatch { tag: format!("{}/minimised", m.tag), ..m };
                 }
             }
         }
